@@ -119,3 +119,250 @@ func VerifHarness_C05_deneb_state() {
 	_, hsErr := st.HistoricalSummaries()
 	zzverif.Assert(hsErr == nil, "historical summaries accessor")
 }
+
+// VerifHarness_C01_deneb_add_validator: the deneb state's AddValidator (add_validator_to_registry of altair and later)
+// appends the validator, its balance and zero entries to both participation lists and inactivity_scores, and leaves the
+// entries of every existing validator as they were. Bounds: tiny preset, 1..3 existing validators, symbolic leaves.
+func VerifHarness_C01_deneb_add_validator() {
+	spec := common.VTinySpec()
+	n := 1 + zzverif.Choose(3)
+	raw := vRawDeneb(spec, n)
+	var buf bytes.Buffer
+	zzverif.Assert(raw.Serialize(spec, codec.NewEncodingWriter(&buf)) == nil, "deneb state serializes")
+	data := buf.Bytes()
+	st, err := AsBeaconStateView(BeaconStateType(spec).Deserialize(codec.NewDecodingReader(bytes.NewReader(data), uint64(len(data)))))
+	zzverif.Assert(err == nil, "schema codec decodes the struct codec's bytes")
+	if err != nil {
+		return
+	}
+	var pub common.BLSPubkey
+	pub[0], pub[47] = zzverif.NondetU8(), 0x77
+	creds := vR()
+	amount := zzverif.NondetU64()
+	zzverif.Assume(amount < 1<<40)
+	zzverif.Reach("deneb-add-validator")
+	err = st.AddValidator(spec, pub, creds, common.Gwei(amount))
+	zzverif.Assert(err == nil, "AddValidator succeeds below the registry limit")
+	if err != nil {
+		return
+	}
+	is, _ := st.InactivityScores()
+	pp, _ := st.PreviousEpochParticipation()
+	cp, _ := st.CurrentEpochParticipation()
+	bals, _ := st.Balances()
+	vals, _ := st.Validators()
+	l1, _ := is.Length()
+	l2, _ := pp.Length()
+	l3, _ := cp.Length()
+	l4, _ := bals.Length()
+	l5, _ := vals.ValidatorCount()
+	zzverif.Assert(l1 == uint64(n+1) && l2 == uint64(n+1) && l3 == uint64(n+1) && l4 == uint64(n+1) && l5 == uint64(n+1), "registry, balances, participation lists and inactivity_scores grow by one entry")
+	for i := 0; i <= n; i++ {
+		sc, e1 := is.GetScore(common.ValidatorIndex(i))
+		pf, e2 := pp.GetFlags(common.ValidatorIndex(i))
+		cf, e3 := cp.GetFlags(common.ValidatorIndex(i))
+		b, e4 := bals.GetBalance(common.ValidatorIndex(i))
+		zzverif.Assert(e1 == nil && e2 == nil && e3 == nil && e4 == nil, "entries are readable after a deposit")
+		if i < n {
+			zzverif.Assert(sc == uint64(raw.InactivityScores[i]), "inactivity scores of the existing validators are unchanged by a deposit")
+			zzverif.Assert(pf == raw.PreviousEpochParticipation[i] && cf == raw.CurrentEpochParticipation[i], "participation flags of the existing validators are unchanged by a deposit")
+			zzverif.Assert(b == raw.Balances[i], "balances of the existing validators are unchanged by a deposit")
+		} else {
+			zzverif.Assert(sc == 0 && pf == 0 && cf == 0 && uint64(b) == amount, "the new validator starts with score 0, no participation flags and the deposit amount")
+		}
+	}
+	nv, e5 := vals.Validator(common.ValidatorIndex(n))
+	zzverif.Assert(e5 == nil, "the new validator is readable")
+	if e5 == nil {
+		gp, _ := nv.Pubkey()
+		gc, _ := nv.WithdrawalCredentials()
+		ge, _ := nv.EffectiveBalance()
+		inc := uint64(spec.EFFECTIVE_BALANCE_INCREMENT)
+		eff := amount - amount%inc
+		if eff > uint64(spec.MAX_EFFECTIVE_BALANCE) {
+			eff = uint64(spec.MAX_EFFECTIVE_BALANCE)
+		}
+		a2, _ := nv.ActivationEpoch()
+		a3, _ := nv.ExitEpoch()
+		zzverif.Assert(gp == pub && gc == creds && uint64(ge) == eff && a2 == ^common.Epoch(0) && a3 == ^common.Epoch(0), "the new validator record is the spec's get_validator_from_deposit")
+	}
+}
+
+func vCk() common.Checkpoint { return common.Checkpoint{Epoch: common.Epoch(zzverif.NondetU64()), Root: vR()} }
+
+// VerifHarness_C15_deneb_setters: every setter / mutator of the deneb state view changes exactly the field it names:
+// after one (chosen) mutation with symbolic arguments the getter returns the stored value and the root of the whole
+// view equals the root of the struct form with only that field replaced (so a setter wired to a neighbouring field
+// index, or a getter reading another field, shows up). Bounds: tiny preset, 2 validators, one mutation per path.
+func VerifHarness_C15_deneb_setters() {
+	spec := common.VTinySpec()
+	raw := vRawDeneb(spec, 2)
+	var buf bytes.Buffer
+	zzverif.Assert(raw.Serialize(spec, codec.NewEncodingWriter(&buf)) == nil, "deneb state serializes")
+	data := buf.Bytes()
+	st, err := AsBeaconStateView(BeaconStateType(spec).Deserialize(codec.NewDecodingReader(bytes.NewReader(data), uint64(len(data)))))
+	zzverif.Assert(err == nil, "schema codec decodes the struct codec's bytes")
+	if err != nil {
+		return
+	}
+	h := tree.GetHashFn()
+	which := zzverif.Choose(24)
+	zzverif.Reach("deneb-setters")
+	switch which {
+	case 0:
+		x := common.Timestamp(zzverif.NondetU64())
+		zzverif.Assert(st.SetGenesisTime(x) == nil, "SetGenesisTime")
+		raw.GenesisTime = x
+		g, _ := st.GenesisTime()
+		zzverif.Assert(g == x, "GenesisTime() returns the stored value")
+	case 1:
+		x := vR()
+		zzverif.Assert(st.SetGenesisValidatorsRoot(x) == nil, "SetGenesisValidatorsRoot")
+		raw.GenesisValidatorsRoot = x
+		g, _ := st.GenesisValidatorsRoot()
+		zzverif.Assert(g == x, "GenesisValidatorsRoot() returns the stored value")
+	case 2:
+		x := common.Slot(zzverif.NondetU64())
+		zzverif.Assert(st.SetSlot(x) == nil, "SetSlot")
+		raw.Slot = x
+		g, _ := st.Slot()
+		zzverif.Assert(g == x, "Slot() returns the stored value")
+	case 3:
+		x := common.Fork{PreviousVersion: common.Version(zzverif.NondetBytes4()), CurrentVersion: common.Version(zzverif.NondetBytes4()), Epoch: common.Epoch(zzverif.NondetU64())}
+		zzverif.Assert(st.SetFork(x) == nil, "SetFork")
+		raw.Fork = x
+		g, _ := st.Fork()
+		zzverif.Assert(g == x, "Fork() returns the stored value")
+	case 4:
+		x := common.BeaconBlockHeader{Slot: common.Slot(zzverif.NondetU64()), ProposerIndex: common.ValidatorIndex(zzverif.NondetU64()), ParentRoot: vR(), StateRoot: vR(), BodyRoot: vR()}
+		zzverif.Assert(st.SetLatestBlockHeader(&x) == nil, "SetLatestBlockHeader")
+		raw.LatestBlockHeader = x
+		g, _ := st.LatestBlockHeader()
+		zzverif.Assert(g != nil && *g == x, "LatestBlockHeader() returns the stored value")
+	case 5:
+		x := common.Eth1Data{DepositRoot: vR(), DepositCount: common.DepositIndex(zzverif.NondetU64()), BlockHash: vR()}
+		zzverif.Assert(st.SetEth1Data(x) == nil, "SetEth1Data")
+		raw.Eth1Data = x
+		g, _ := st.Eth1Data()
+		zzverif.Assert(g == x, "Eth1Data() returns the stored value")
+	case 6:
+		zzverif.Assume(raw.Eth1DepositIndex < ^common.DepositIndex(0))
+		zzverif.Assert(st.IncrementDepositIndex() == nil, "IncrementDepositIndex")
+		raw.Eth1DepositIndex++
+		g, _ := st.Eth1DepositIndex()
+		zzverif.Assert(g == raw.Eth1DepositIndex, "Eth1DepositIndex() returns the incremented value")
+	case 7:
+		x := common.JustificationBits{zzverif.NondetU8() & 0x0f}
+		zzverif.Assert(st.SetJustificationBits(x) == nil, "SetJustificationBits")
+		raw.JustificationBits = x
+		g, _ := st.JustificationBits()
+		zzverif.Assert(g == x, "JustificationBits() returns the stored value")
+	case 8:
+		x := vCk()
+		zzverif.Assert(st.SetPreviousJustifiedCheckpoint(x) == nil, "SetPreviousJustifiedCheckpoint")
+		raw.PreviousJustifiedCheckpoint = x
+		g, _ := st.PreviousJustifiedCheckpoint()
+		zzverif.Assert(g == x, "PreviousJustifiedCheckpoint() returns the stored value")
+	case 9:
+		x := vCk()
+		zzverif.Assert(st.SetCurrentJustifiedCheckpoint(x) == nil, "SetCurrentJustifiedCheckpoint")
+		raw.CurrentJustifiedCheckpoint = x
+		g, _ := st.CurrentJustifiedCheckpoint()
+		zzverif.Assert(g == x, "CurrentJustifiedCheckpoint() returns the stored value")
+	case 10:
+		x := vCk()
+		zzverif.Assert(st.SetFinalizedCheckpoint(x) == nil, "SetFinalizedCheckpoint")
+		raw.FinalizedCheckpoint = x
+		g, _ := st.FinalizedCheckpoint()
+		zzverif.Assert(g == x, "FinalizedCheckpoint() returns the stored value")
+	case 11:
+		i := zzverif.Choose(2)
+		x := common.Gwei(zzverif.NondetU64())
+		bals, _ := st.Balances()
+		zzverif.Assert(bals.SetBalance(common.ValidatorIndex(i), x) == nil, "Balances().SetBalance")
+		raw.Balances[i] = x
+	case 12:
+		x, y := common.Gwei(zzverif.NondetU64()), common.Gwei(zzverif.NondetU64())
+		zzverif.Assert(st.SetBalances([]common.Gwei{x, y}) == nil, "SetBalances")
+		raw.Balances[0], raw.Balances[1] = x, y
+	case 13:
+		i := zzverif.Choose(int(spec.SLOTS_PER_HISTORICAL_ROOT))
+		x := vR()
+		br, _ := st.BlockRoots()
+		zzverif.Assert(br.SetRoot(common.Slot(i), x) == nil, "BlockRoots().SetRoot")
+		raw.BlockRoots[i] = x
+	case 14:
+		i := zzverif.Choose(int(spec.SLOTS_PER_HISTORICAL_ROOT))
+		x := vR()
+		sr, _ := st.StateRoots()
+		zzverif.Assert(sr.SetRoot(common.Slot(i), x) == nil, "StateRoots().SetRoot")
+		raw.StateRoots[i] = x
+	case 15:
+		i := zzverif.Choose(2)
+		x := zzverif.NondetU64()
+		is, _ := st.InactivityScores()
+		zzverif.Assert(is.SetScore(common.ValidatorIndex(i), x) == nil, "InactivityScores().SetScore")
+		raw.InactivityScores[i] = Uint64View(x)
+		is2, _ := st.InactivityScores()
+		g, _ := is2.GetScore(common.ValidatorIndex(i))
+		zzverif.Assert(g == x, "GetScore returns the stored score")
+	case 16:
+		i := zzverif.Choose(2)
+		x := altair.ParticipationFlags(zzverif.NondetU8() & 7)
+		prev := zzverif.Choose(2) == 0
+		if prev {
+			pp, _ := st.PreviousEpochParticipation()
+			zzverif.Assert(pp.SetFlags(common.ValidatorIndex(i), x) == nil, "PreviousEpochParticipation().SetFlags")
+			raw.PreviousEpochParticipation[i] = x
+		} else {
+			cp, _ := st.CurrentEpochParticipation()
+			zzverif.Assert(cp.SetFlags(common.ValidatorIndex(i), x) == nil, "CurrentEpochParticipation().SetFlags")
+			raw.CurrentEpochParticipation[i] = x
+		}
+	case 17:
+		sc := vSyncCommittee(spec)
+		sc.AggregatePubkey[1] = 0x5a
+		v, e := sc.View(spec)
+		zzverif.Assert(e == nil && st.SetCurrentSyncCommittee(v) == nil, "SetCurrentSyncCommittee")
+		raw.CurrentSyncCommittee = sc
+	case 18:
+		sc := vSyncCommittee(spec)
+		sc.AggregatePubkey[1] = 0x5b
+		v, e := sc.View(spec)
+		zzverif.Assert(e == nil && st.SetNextSyncCommittee(v) == nil, "SetNextSyncCommittee")
+		raw.NextSyncCommittee = sc
+	case 19:
+		sc := vSyncCommittee(spec)
+		sc.AggregatePubkey[1] = 0x5c
+		v, e := sc.View(spec)
+		zzverif.Assert(e == nil && st.RotateSyncCommittee(v) == nil, "RotateSyncCommittee")
+		raw.CurrentSyncCommittee = raw.NextSyncCommittee
+		raw.NextSyncCommittee = sc
+	case 20:
+		hd := vHeader()
+		zzverif.Assert(st.SetLatestExecutionPayloadHeader(hd) == nil, "SetLatestExecutionPayloadHeader")
+		raw.LatestExecutionPayloadHeader = *hd
+	case 21:
+		zzverif.Assume(raw.NextWithdrawalIndex < ^common.WithdrawalIndex(0))
+		zzverif.Assert(st.IncrementNextWithdrawalIndex() == nil, "IncrementNextWithdrawalIndex")
+		raw.NextWithdrawalIndex++
+		g, _ := st.NextWithdrawalIndex()
+		zzverif.Assert(g == raw.NextWithdrawalIndex, "NextWithdrawalIndex() returns the incremented value")
+	case 22:
+		x := common.WithdrawalIndex(zzverif.NondetU64())
+		y := common.ValidatorIndex(zzverif.NondetU64())
+		zzverif.Assert(st.SetNextWithdrawalIndex(x) == nil && st.SetNextWithdrawalValidatorIndex(y) == nil, "SetNextWithdrawalIndex / SetNextWithdrawalValidatorIndex")
+		raw.NextWithdrawalIndex, raw.NextWithdrawalValidatorIndex = x, y
+		g1, _ := st.NextWithdrawalIndex()
+		g2, _ := st.NextWithdrawalValidatorIndex()
+		zzverif.Assert(g1 == x && g2 == y, "withdrawal cursors return the stored values")
+	case 23:
+		i := zzverif.Choose(2)
+		x := common.Epoch(zzverif.NondetU64())
+		vals, _ := st.Validators()
+		v, _ := vals.Validator(common.ValidatorIndex(i))
+		zzverif.Assert(v.SetWithdrawableEpoch(x) == nil, "validator.SetWithdrawableEpoch")
+		raw.Validators[i].WithdrawableEpoch = x
+	}
+	zzverif.Assert(st.HashTreeRoot(h) == raw.HashTreeRoot(spec, h), "after the mutation the view's root is the struct's root with exactly that field replaced")
+}
